@@ -227,6 +227,10 @@ class CallMixin:
             if vs == INT:
                 return SInt(r)
             return SArr(r)
+        if isinstance(base, SRef) and isinstance(idx, type):
+            fld = self.env.classes[base.cls].get('items', {}).get(idx)
+            if fld is not None:
+                return self.get_attr(base, fld)
         if isinstance(base, SRef):
             # mapping-style record access: run['conclusion']
             if isinstance(idx, str):
@@ -510,7 +514,22 @@ class CallMixin:
         return r
 
     def ex_Yield(self, node, fr):
-        fr.locals['@yields'].append(self.eval(node.value, fr) if node.value else None)
+        v = self.eval(node.value, fr) if node.value else None
+        ys = self.env.yield_specs.get(fr.qualname)
+        in_loop = '_i' in fr.locals and fr.locals.get('@in_sym_loop')
+        if ys is not None:
+            # generator under contract: every yielded element satisfies the element contract
+            ns = dict(fr.locals)
+            ns['elem'] = v
+            ns['index'] = SInt(smt.Add(smt.IntC(len(fr.locals['@yields'])), fr.locals['_i'].t)) if in_loop \
+                else len(fr.locals['@yields'])
+            t = self.truth(self.call_spec(ys, ns, fr))
+            self.oblige('yield/%s@%d' % (fr.qualname, node.lineno), 'site', t, 'yield')
+        if in_loop:
+            if ys is None:
+                raise Unsupported('yield inside a symbolic loop of %s without an element contract' % fr.qualname)
+            return None
+        fr.locals['@yields'].append(v)
         return None
 
     def call_closure(self, c, args, kwargs):
@@ -531,7 +550,7 @@ class CallMixin:
                 except ValueError:
                     pass
         qn = '%s:%s' % (fn.__module__, fn.__qualname__)
-        fr = Frame(loc, fn.__globals__, None, node, qn)
+        fr = Frame(loc, fn.__globals__, None, node, qn, fn)
         self.env.touched.setdefault(qn, (fn.__code__.co_filename, node.lineno))
         is_target = fn is self.env.current_target
         if is_target:
